@@ -384,7 +384,7 @@ COQC_FLAGS = ("-Q %s GM -w -notation-overridden,-deprecated-hint-without-localit
               "-deprecated-instance-without-locality,-ambiguous-paths,-deprecated-syntactic-definition" % COQ)
 
 
-def run_coq_cases(cid, name, header, cases, shard=300, timeout=900, jobs=16):
+def run_coq_cases(cid, name, header, cases, shard=300, timeout=900, jobs=8, _retry=False):
     """cases: list of Coq terms of type nat (0 agree, 1 disagree, 2 indeterminate, 3 model error...).
     Each shard file ends with one Eval printing the (index, code) pairs with code <> 0.
     Returns (codes: dict idx->code, log).  On a Coq failure returns (None, log)."""
@@ -453,6 +453,13 @@ def run_coq_cases(cid, name, header, cases, shard=300, timeout=900, jobs=16):
             os.remove(f)
         except OSError:
             pass
+    if failed and not _retry:
+        # a shard killed by the machine (memory pressure when many checks run side by side) or timed out is not a
+        # verdict: run the whole set once more with two processes; a deterministic Coq error fails again
+        res2, log2 = run_coq_cases(cid, name, header, cases, shard=shard, timeout=timeout, jobs=2, _retry=True)
+        if res2 is not None:
+            return res2, log2 + " (after one retry with 2 processes: %s)" % "; ".join(l[:120] for l in log)[:400]
+        return None, "\n".join(log) + "\nRETRY:\n" + log2
     if failed:
         return None, "\n".join(log)
     return results, "%d shards in %.1fs" % (len(files), time.time() - t0)
